@@ -36,6 +36,9 @@ type Obligation struct {
 }
 
 type Query struct {
+	rtBase   string            // read tracking: address of the receiver object
+	rtLeaves map[string]Leaf   // array family -> leaf of the receiver type
+	newLoopHelpers map[string]bool
 	peakBase string
 	peakFam, peakAddr string // cost mode: array family and address of the root receiver's cursor field
 	costAssumed map[string]bool
@@ -56,6 +59,7 @@ type Query struct {
 }
 
 type VCOpts struct {
+	TrackReads  map[string]string // entry-point mode (C08): leaf paths of the receiver that may be read before being assigned -> why
 	Cost        bool // count steps in the ghost counter $ticks (C20)
 	Safety      bool // emit idx/slice/nil/assert/div obligations
 	Overflow    bool
@@ -81,7 +85,7 @@ type VCOpts struct {
 }
 
 func newQuery(e *Engine, opts *VCOpts) *Query {
-	return &Query{eng: e, costAssumed: map[string]bool{}, declared: map[string]bool{}, strConsts: map[string]string{}, notes: map[string]bool{}, nameCount: map[string]int{}, opts: opts, uninterp: map[string]bool{}}
+	return &Query{eng: e, newLoopHelpers: map[string]bool{}, costAssumed: map[string]bool{}, declared: map[string]bool{}, strConsts: map[string]string{}, notes: map[string]bool{}, nameCount: map[string]int{}, opts: opts, uninterp: map[string]bool{}}
 }
 
 func (q *Query) declare(name, sort string) {
@@ -175,6 +179,9 @@ func (s *State) clone() *State {
 }
 
 func famSort(q *Query, fam string) string {
+	if strings.HasPrefix(fam, "$w|") {
+		return "Bool"
+	}
 	if strings.HasPrefix(fam, "$") {
 		if s, ok := ghostSorts[fam]; ok {
 			return s
@@ -736,6 +743,26 @@ func (fr *Frame) collectNames() {
 func (fr *Frame) run(args []Val, freeVars []Val, st *State, reach string) {
 	fn := fr.fn
 	q := fr.q
+	if q.opts != nil && q.opts.TrackReads != nil && fr.parent == nil && len(args) > 0 && fn.Signature.Recv() != nil {
+		if pt, ok := underlying(fn.Params[0].Type()).(*types.Pointer); ok {
+			q.rtBase = args[0].C[0]
+			q.rtLeaves = map[string]Leaf{}
+			for _, lf := range layoutOf(pt.Elem()).leaves {
+				q.rtLeaves[lf.Arr] = lf
+				famLeafSort[lf.Arr] = lf.Sort
+				st.v["$w|"+lf.Path] = "false"
+			}
+			// the slices handed to the entry point do not lie inside the receiver object (no safe Go expression makes a
+			// slice of a struct's non-array fields)
+			size := cellsOf(pt.Elem())
+			for i, p := range fn.Params[1:] {
+				if sl, ok := underlying(p.Type()).(*types.Slice); ok && i+1 < len(args) && len(args[i+1].C) == 3 {
+					a := args[i+1]
+					q.assume("true", fmt.Sprintf("(or (= %s 0) (>= %s (+ %s %d)) (<= (+ %s (* %s %d)) %s))", a.C[0], a.C[0], q.rtBase, size, a.C[0], a.C[2], cellsOf(sl.Elem()), q.rtBase))
+				}
+			}
+		}
+	}
 	if q.opts != nil && q.opts.Cost {
 		q.get(st, "$ticks")
 		if fr.parent == nil && len(args) > 0 {
